@@ -1180,6 +1180,10 @@ func (f family) texts(g *grammar) []string {
 		for _, e := range all(tS, f.K) {
 			out = append(out, "in("+e+",'a','aa','ab')", "len("+e+")==2", "in('aa',"+e+")")
 		}
+	case "self-compare":
+		// the field on both sides (for slice fields the operands are not comparable Go values: no verdict is demanded,
+		// but evaluation must not panic)
+		out = append(out, "$==$", "$!=$", "in($,$)", "!($==$)", "$==$&&true", "in($,$,$)", "len($)==len($)||$==$")
 	case "unary-chain":
 		var ops []string
 		for t := ty(0); t < nTy; t++ {
@@ -1263,6 +1267,9 @@ func families(thorough bool) []family {
 func addText(_ int, fs *[]family) {
 	for _, f := range []string{"int", "float64", "string", "bool", "*int"} {
 		*fs = append(*fs, family{Field: f, K: 0, Alpha: alFull, Text: "unary-chain"}, family{Field: f, K: 1, Alpha: alReduced, Text: "unary-chain"})
+	}
+	for _, f := range allFields {
+		*fs = append(*fs, family{Field: f, K: 0, Alpha: alFull, Text: "self-compare"})
 	}
 	for _, f := range []string{"int", "string", "*int"} {
 		*fs = append(*fs, family{Field: f, K: 1, Alpha: alFull, Text: "funcargs"}, family{Field: f, K: 2, Alpha: alReduced, Text: "funcargs"})
